@@ -19,9 +19,9 @@ if [ -f $demo ]; then
   [ -z "$pkgdir" ] && pkgdir=verifdemo
   case "$pkgdir" in *.go) pkgdir=$(dirname $pkgdir);; esac
   mkdir -p $wt/$pkgdir; cp $demo $wt/$pkgdir/
-  (cd $wt && timeout 300 go test -vet=off -count=1 -timeout 200s ./$pkgdir/ >/tmp/seed/results/$label.demo-with.log 2>&1); withrc=$?
+  (cd $wt && timeout 400 go test ${DEMO_RACE:+-race} -vet=off -count=1 -timeout 300s ./$pkgdir/ >/tmp/seed/results/$label.demo-with.log 2>&1); withrc=$?
   git -C $wt apply -R $src/patch$n.diff
-  (cd $wt && timeout 300 go test -vet=off -count=1 -timeout 200s ./$pkgdir/ >/tmp/seed/results/$label.demo-without.log 2>&1); worc=$?
+  (cd $wt && timeout 400 go test ${DEMO_RACE:+-race} -vet=off -count=1 -timeout 300s ./$pkgdir/ >/tmp/seed/results/$label.demo-without.log 2>&1); worc=$?
   git -C $wt apply $src/patch$n.diff
   rm -f $wt/$pkgdir/$(basename $demo); 
   echo "demo: with-patch rc=$withrc without-patch rc=$worc (dir $pkgdir)" | tee -a $res
